@@ -358,12 +358,21 @@ def commit (s s' : St) : St × Res := if uniqOK s' then (s', .ok) else (s, .rej)
 
 /-! ### the operations -/
 
-/-- `AddStream.add_stream` (streams.py:142-173): an existing directory makes the
-INSERT fail (the DELETE of the old row is flushed after it) -/
+/-- `st = Stream.get(directory=…); if st: session.delete(st); session.flush()` – a stream
+that already uses the directory is deleted, with everything it owns (since /repo 9090ca4) -/
+def dropDir (s : St) (dir : String) : St :=
+  match s.streams.find? (·.dir == dir) with
+  | some st => dropStream s st.pk
+  | none => s
+
+def appendStream (s : St) (dir title : String) : St :=
+  { s with streams := s.streams ++
+      [{ pk := fresh (s.streams.map (·.pk)), dir := dir, title := title, tref := none }] }
+
+/-- `AddStream.add_stream` (streams.py, PUT and the HTML form POST of /streams/add): a new
+stream; a stream of the same directory is replaced -/
 def addStream (s : St) (dir title : String) : St × Res :=
-  if s.streams.any (·.dir == dir) then (s, .rej)
-  else ({ s with streams := s.streams ++
-      [{ pk := fresh (s.streams.map (·.pk)), dir := dir, title := title, tref := none }] }, .ok)
+  (appendStream (dropDir s dir) dir title, .ok)
 
 /-- `EditStream.post` (streams.py:294-341) -/
 def editStream (s : St) (spk : Nat) (dir title tref : String) : St × Res :=
